@@ -561,9 +561,12 @@ class StmtMixin(object):
         pass   # rebinding a closure: keep
     mods = ls.get('modifies', cx.spec.modifies if cx.spec is not None else ())
     self.havoc_patterns(st, mods)
-    if ls.get('allocates', cx.spec.allocates if cx.spec is not None else True):
+    lalloc = ls.get('allocates', cx.spec.allocates if cx.spec is not None else True)
+    if lalloc:
       a = z3.Int(fresh_name('alloc'))
       st.assume(a >= st.alloc)
+      if lalloc != 'any':
+        st.assume(self.no_finals_between(st, st.alloc, a))   # re-established by the obligation at the unit's exit
       st.alloc = a
     head_alloc = st.alloc
     head_heap = dict(st.heap)
@@ -618,6 +621,9 @@ class StmtMixin(object):
             self.check_frame(s2, head_heap, modkeys, 'loop-frame[%s]' % tag, node)
             if s2.alloc is not head_alloc and not ls.get('allocates', cx.spec.allocates if cx.spec is not None else True):
               self.oblige(s2, 'loop-no-alloc[%s]' % tag, s2.alloc == head_alloc, node, 'the loop body allocates nothing')
+            elif s2.alloc is not head_alloc and lalloc != 'any':
+              self.oblige(s2, 'loop-no-final-alloc[%s]' % tag, self.no_finals_between(s2, head_alloc, s2.alloc), node,
+                          "one iteration creates no instance of a 'final' class")
           elif kind == 'brk':
             self.check_frame(s2, head_heap, modkeys, 'loop-frame[%s]' % tag, node)
             s2.path.append('loop%d:break' % ordn)
